@@ -43,6 +43,12 @@ fn main() {
             });
             std::process::exit(harness::check(arm.as_ref(), tier, seed));
         }
+        "transcript" => {
+            if args.len() < 3 {
+                usage();
+            }
+            std::process::exit(props::c14::transcript_cli(&args[2]));
+        }
         "fingerprints" => {
             if args.len() < 5 {
                 usage();
